@@ -8,7 +8,7 @@ CLAIMED = {
    note="Trusted: the terminal actor (stub of term::main_loop) respects the documented calling protocol; fuel ticks (hook H3) cover the hand-written loops; debug assertions and overflow checks are on as in the repository's test profile.",
    tech="deterministic simulation: seeded hostile sessions with interrupt/snapshot/overlong-input fault injection, crash+hang containment, canary"),
  "C13": dict(cat="fault_enumeration", ref="DESIGN.md section 5 C13",
-   text="For each seeded program the interrupt instant is enumerated over EVERY VM instruction of the run, every INPUT wait, every after-reply instant and every instant between two lines of a LIST statement (interrupt, in a quarter of the programs delivered twice, + optional inspection line (PRINT, SAVE, LIST) + CONT), STOP and END are inserted at every top-level statement boundary, seven quantum schedules are compared event-for-event, and 1 in 400 evaluations is a GOSUB recursion 65 504+ frames deep with an INPUT at the bottom; oracle is the uninterrupted run of the same program. Complete over crash points per sampled program, sampled over programs.",
+   text="For each seeded program the interrupt instant is enumerated over EVERY VM instruction of the run, every INPUT wait, every after-reply instant and every instant between two lines of a LIST statement (interrupt, in a quarter of the programs delivered twice, + optional inspection line (PRINT, SAVE, LIST, or a 1025-character line that is refused) + CONT), STOP and END are inserted at every top-level statement boundary, seven quantum schedules are compared event-for-event, and 1 in 400 evaluations is a GOSUB recursion 65 504+ frames deep with an INPUT at the bottom; oracle is the uninterrupted run of the same program. Complete over crash points per sampled program, sampled over programs.",
    note="Trusted: the normaliser that removes the ?BREAK report, the line break it forces and the prompts (terminal model + probe hook H4 to tell forced from printed line breaks). TRON, interrupts landing in the direct RUN line, and column-sensitive items after a mid-line break are not judged.",
    tech="deterministic simulation: exhaustive interrupt-point / STOP-END-placement enumeration per seeded program, self-differential against the uninterrupted run, seeded quantum schedules"),
  "C04": dict(cat="exploration", ref="DESIGN.md section 5 C04",
@@ -20,11 +20,11 @@ CLAIMED = {
    note="Trusted: token-stream normaliser; TRON is switched off at the end of the prefix because the manual lets tracing persist across RUN.",
    tech="deterministic simulation: seeded session prefixes with injected interrupts and failing statements, fresh-twin differential oracle"),
  "C15": dict(cat="exploration", ref="DESIGN.md section 5 C15",
-   text="Seeded edit / LIST / DELETE / NEW / LOAD (sorted and hostile files: unsorted, repeated numbers, bare numbers, a direct statement that must refuse the whole load) / TAB-lookup histories over a small universe of line numbers, with Ctrl-C after the j-th listed line (also for a LIST statement stored in the program, followed by a direct LIST and CONT), LIST typed with the cursor mid-line, and get_listing() snapshots held across edits; an ordered-map model is compared with the real listing after every operation and with every LIST transcript; held snapshots must keep rendering what they rendered when taken.",
+   text="Seeded edit / LIST / DELETE / NEW / LOAD (sorted and hostile files: unsorted, repeated numbers, bare numbers, a direct statement that must refuse the whole load) / TAB-lookup histories over a small universe of line numbers, with Ctrl-C after the j-th listed line (also for a LIST statement stored in the program, followed by a direct LIST and CONT), LIST typed with the cursor mid-line, a host-initiated set_listing() right after the first listed line of a LIST (the listing must stop and the store become the loaded file), and get_listing() snapshots held across edits; an ordered-map model is compared with the real listing after every operation and with every LIST transcript; held snapshots must keep rendering what they rendered when taken.",
    note="Trusted: the 40-line map model. Whole-program ranges written explicitly for DELETE (0-65529 and equivalents) are not judged.",
-   tech="deterministic simulation: seeded histories against an ordered-map reference model, LIST interrupted mid-way, live-snapshot fault"),
+   tech="deterministic simulation: seeded histories against an ordered-map reference model, LIST interrupted mid-way, host load mid-LIST, live-snapshot fault"),
  "C01": dict(cat="exploration", ref="DESIGN.md section 5 C01, section 4.1, appendix B",
-   text="Seeded search over generated programs of the well-defined fragment and typed sessions (direct statements, RUN / RUN n / GOTO n, CONT after STOP/END, replies synthesised per INPUT) (also with tracing switched on at the prompt and left on over several RUN / RUN n / GOTO n / GOSUB n commands) executed on the real VM under seven seeded quantum distributions; programs include NEXT lists, code-less landing pads behind the final END, END inside IF branches, ON.. out of range as last statement and self-restart by RUN; 0.4% of the evaluations run C13's interrupt + CONT enumeration over such a program; the full screen transcript of every typed line (output, prompts, REDO, trace tokens, error code and line, READY) is compared with RefBASIC, an independent reference interpreter over the generator's own AST. Evidence over the sampled programs, not proof; defects outside the generated fragment are invisible.",
+   text="Seeded search over generated programs of the well-defined fragment and typed sessions (direct statements, RUN / RUN n / GOTO n, CONT after STOP/END, replies synthesised per INPUT) (also with tracing switched on at the prompt and left on over several RUN / RUN n / GOTO n / GOSUB n commands) executed on the real VM under seven seeded quantum distributions; programs include NEXT lists, code-less landing pads behind the final END, END inside IF branches, ON.. out of range as last statement, self-restart by RUN, and (3%) programs whose last line is 65529; 0.4% of the evaluations run C13's interrupt + CONT enumeration over such a program; the full screen transcript of every typed line (output, prompts, REDO, trace tokens, error code and line, READY) is compared with RefBASIC, an independent reference interpreter over the generator's own AST. Evidence over the sampled programs, not proof; defects outside the generated fragment are invisible.",
    note="Trusted: RefBASIC (rules of DESIGN.md appendix B, taken from the manual and the property statements) and the renderer; grey zones set the model's grey flag and discard the case (counted in the evidence).",
    tech="deterministic simulation: seeded programs and sessions under seeded slice schedules, refinement check against an executable reference model (RefBASIC)"),
  "C06": dict(cat="exploration", ref="DESIGN.md section 5 C06",
